@@ -648,7 +648,44 @@ pub fn explore_scheme<S: Sch>(tier: Tier, rep: &mut Report) -> Vec<Node<S>> {
             out.extend(bfs::<S>(r3, &mini, &Explore { depth: 5, faults: false, max_states: 1_500_000, label: "mini".into() }, rep));
         }
     }
+    determinism_self_check::<S>(&out, &init_list, rep);
     out
+}
+
+/// Re-executes the first, the last and every 1000th recorded history from scratch and requires the
+/// same canonical state and the same observations (signature bytes excluded). A divergence means the
+/// harness does not own some source of nondeterminism: machinery error, never a verdict.
+pub fn determinism_self_check<S: Sch>(nodes: &[Node<S>], init_list: &[Init], rep: &mut Report) {
+    let ctx = Ctx::<S>::new();
+    let n = nodes.len();
+    let picks: Vec<usize> = (0..n).filter(|i| *i == 0 || *i + 1 == n || i % 1000 == 0).collect();
+    let mut checked = 0u64;
+    for i in picks {
+        let node = &nodes[i];
+        let Some(init) = init_list.iter().find(|x| x.label == *node.init) else { continue };
+        let Some(mut cur) = make_init_light::<S>(init) else { continue };
+        let mut ok = true;
+        for st in &node.hist {
+            let o = transition::<S>(&cur, st, &ctx, false);
+            match o.next {
+                Some(nx) => cur = nx,
+                None => {
+                    ok = false;
+                    break;
+                }
+            }
+        }
+        checked += 1;
+        if !ok || cur.m != node.m || cur.obs.sigless() != node.obs.sigless() {
+            rep.machinery.push(format!(
+                "determinism self-check: re-executing the history of state #{i} of scheme {} ({} steps from '{}') gave different observations",
+                S::NAME,
+                node.hist.len(),
+                node.init
+            ));
+        }
+    }
+    rep.stats.class_n("selfcheck:histories-re-executed", checked);
 }
 
 // ---------------------------------------------------------------- C09 size sweep
@@ -944,5 +981,94 @@ pub fn make_init_light<S: Sch>(init: &Init) -> Option<Node<S>> {
             Some(Node { enr: e, m: MState { owner: 0, seq: init.seq, pairs, siglen }, obs, init: Arc::new(init.label.clone()), init_hex: Arc::new(hex::encode(&rec)), hist: vec![] })
         }
         _ => None,
+    }
+}
+
+// ---------------------------------------------------------------- stateright cross-check
+
+/// The same transition function wrapped as a `stateright::Model`; its unique-state count must equal
+/// this engine's for the same roots, alphabet and depth ("run twice and compare counts" with an
+/// independent, established explorer). A mismatch is a machinery error, never a verdict.
+pub mod sr {
+    use super::*;
+    use stateright::{Checker, Model, Property};
+    use std::hash::{Hash, Hasher};
+
+    #[derive(Clone, Debug)]
+    pub struct SrState {
+        pub m: MState,
+        pub root: usize,
+        pub hist: Vec<Step>,
+    }
+    impl PartialEq for SrState {
+        fn eq(&self, o: &Self) -> bool {
+            self.m == o.m
+        }
+    }
+    impl Eq for SrState {}
+    impl Hash for SrState {
+        fn hash<H: Hasher>(&self, h: &mut H) {
+            self.m.hash(h);
+        }
+    }
+
+    pub struct SrModel<S: Sch> {
+        pub roots: Vec<Init>,
+        pub steps: Vec<Step>,
+        pub depth: usize,
+        pub ctx: Ctx<S>,
+    }
+
+    impl<S: Sch> SrModel<S> {
+        fn rebuild(&self, st: &SrState) -> Option<Node<S>> {
+            let mut n = make_init_light::<S>(&self.roots[st.root])?;
+            for s in &st.hist {
+                let o = transition::<S>(&n, s, &self.ctx, false);
+                n = o.next?;
+            }
+            Some(n)
+        }
+    }
+
+    impl<S: Sch> Model for SrModel<S> {
+        type State = SrState;
+        type Action = usize;
+        fn init_states(&self) -> Vec<SrState> {
+            self.roots
+                .iter()
+                .enumerate()
+                .filter_map(|(i, r)| make_init_light::<S>(r).map(|n| SrState { m: n.m, root: i, hist: vec![] }))
+                .collect()
+        }
+        fn actions(&self, st: &SrState, out: &mut Vec<usize>) {
+            if st.hist.len() < self.depth {
+                out.extend(0..self.steps.len());
+            }
+        }
+        fn next_state(&self, st: &SrState, a: usize) -> Option<SrState> {
+            let n = self.rebuild(st)?;
+            let o = transition::<S>(&n, &self.steps[a], &self.ctx, false);
+            let nx = o.next?;
+            let mut hist = st.hist.clone();
+            hist.push(self.steps[a].clone());
+            Some(SrState { m: nx.m, root: st.root, hist })
+        }
+        fn properties(&self) -> Vec<Property<Self>> {
+            vec![Property::<Self>::always("explore everything", |_, _| true)]
+        }
+    }
+
+    /// Returns (stateright unique states, this engine's states) for the given configuration.
+    pub fn cross_check<S: Sch>(root_labels: &[&str], steps: Vec<Step>, depth: usize) -> (usize, usize) {
+        let roots: Vec<Init> = inits().into_iter().filter(|i| root_labels.contains(&i.label.as_str())).collect();
+        // this engine
+        let mut scratch = Report::default();
+        let nodes: Vec<Node<S>> = roots.iter().filter_map(|r| make_init_light::<S>(r)).collect();
+        let all = bfs::<S>(nodes, &steps, &Explore { depth, faults: false, max_states: 1_000_000, label: "sr".into() }, &mut scratch);
+        let mine: std::collections::HashSet<MState> = all.iter().map(|n| n.m.clone()).collect();
+        // stateright, single-threaded BFS (level order, so a state is first reached by a shortest history)
+        let model = SrModel::<S> { roots, steps, depth, ctx: Ctx::<S>::new() };
+        let checker = model.checker().threads(1).spawn_bfs().join();
+        (checker.unique_state_count(), mine.len())
     }
 }
